@@ -426,4 +426,70 @@ theorem onceReorders_of_not_usesOnce (ops : List Op) : ∀ s, usesOnce ops = fal
     cases op <;> simp_all [usesOnce, onceReorders]
 
 
+/-! ### receive side -/
+
+/-- receive-side invariant: packets taken off `.rxPkts` followed by those still on it are the datagrams
+the socket handed over, in order; the messages are a subsequence of the packets taken off, all from
+sources that have a remote -/
+def RxInv (s : RxState) : Prop :=
+  s.popped ++ s.rxPkts = s.taken ∧ s.rxMsgs.Sublist s.popped ∧ ∀ p ∈ s.rxMsgs, s.remotes.contains p.dst = true
+
+theorem rxLoop_inv (env : List Recv) : ∀ (s : RxState), RxInv s → RxInv (rxLoop env s).1 := by
+  induction env with
+  | nil => intro s h; exact h
+  | cons r rest ih =>
+    intro s h
+    unfold rxLoop
+    cases r with
+    | dgram p =>
+      apply ih
+      obtain ⟨h1, h2, h3⟩ := h
+      exact ⟨by simp only []; rw [← List.append_assoc, h1], h2, h3⟩
+    | empty src => exact h
+    | nothing => exact h
+    | err e =>
+      simp only
+      split <;> exact h
+
+theorem rstep_inv (s : RxState) (op : ROp) (h : RxInv s) : RxInv (rstep s op).1 := by
+  obtain ⟨h1, h2, h3⟩ := h
+  cases op with
+  | addRemote src =>
+    simp only [rstep]
+    refine ⟨h1, h2, ?_⟩
+    intro p hp
+    have := h3 p hp
+    split
+    · exact this
+    · simp only [List.contains_eq_mem, List.mem_append, decide_eq_true_eq] at this ⊢
+      exact Or.inl this
+  | serviceReceives env =>
+    simp only [rstep, serviceReceives]
+    split
+    · exact rxLoop_inv env s ⟨h1, h2, h3⟩
+    · exact ⟨h1, h2, h3⟩
+  | serviceReceivesOnce env =>
+    simp only [rstep, serviceReceivesOnce]
+    split
+    · cases env with
+      | nil => exact ⟨h1, h2, h3⟩
+      | cons r rest => exact rxLoop_inv [r] s ⟨h1, h2, h3⟩
+    · exact ⟨h1, h2, h3⟩
+  | serviceRxPkts =>
+    simp only [rstep, serviceRxPkts]
+    refine ⟨by simpa using h1, ?_, ?_⟩
+    · exact List.Sublist.append h2 List.filter_sublist
+    · intro p hp
+      rcases List.mem_append.mp hp with hp | hp
+      · exact h3 p hp
+      · exact (List.mem_filter.mp hp).2
+  | close => exact ⟨h1, h2, h3⟩
+  | reopen => exact ⟨h1, h2, h3⟩
+
+theorem rrun_inv (ops : List ROp) : ∀ (s : RxState), RxInv s → RxInv (rrun s ops).1 := by
+  induction ops with
+  | nil => intro s h; exact h
+  | cons op ops ih => intro s h; exact ih _ (rstep_inv s op h)
+
+
 end Ioflo.Gram
